@@ -60,6 +60,8 @@ pub const CONSTRUCTS: &[(&str, &[&str])] = &[
     ("@1[@2][@3] = 4", &["[xs]", "0", "1"]),
     ("r = $\"a${@1}b${@2}\"", &["\"x\"", "\"y\""]),
     ("r = $\"${@1}${@2}\"", &["\"x\"", "5"]),
+    ("r = $\"${@1}${@2}\"", &["5", "\"y\""]),
+    ("r = $\"a${@1}b${@2}c${@3}\"", &["\"x\"", "null", "\"z\""]),
     ("[r, s] = [@1, @2]", &["1", "2"]),
     ("[xs[@1], xs[@2]] = [@3, 9]", &["0", "1", "5"]),
     ("[xs[@1], r] = @2", &["0", "[1, 2]"]),
